@@ -335,10 +335,8 @@ class AlgorithmSystem:
     return new_state, {'state': new_state, 'diagnostics': diagnostics}
 
   def check_output(self, args, out):
-    ids = [a[0] for a in args]
-    diag = out['diagnostics']
-    require(len(diag) == len(ids) and set(diag) == set(ids), 'diagnostics_keys',
-            lambda: f'diagnostics for {sorted(diag)} vs cohort {sorted(ids)}')
+    # Which clients appear in the diagnostics is C01's business, not C10's.
+    pass
 
 
 # ----------------------------------------------------------------- aggregators
